@@ -1,5 +1,5 @@
 """C07 - a join runs once, and only when its barrier is satisfied (barrier ledger)."""
-from ovf.props.common import batches, scale, ASSUME_SIM
+from ovf.props.common import batches, family_slices, scale, ASSUME_SIM
 from ovf.workloads import conduct, mon  # noqa: F401
 from ovf.props.orders import orders  # noqa: F401
 from ovf.props.sweeps import ctl_sweep  # noqa: F401
@@ -9,7 +9,7 @@ TECHNIQUE = "runtime monitoring: barrier ledger per (join, route) fed by harness
 RULE = ("generated definitions rich in joins (`join: all` and `join: N`, 2-5 inbound branches incl. failing, remediated "
         "and never-arriving ones, joins behind splits and inside counter-bounded loops) x hashed outcomes x seeded "
         "schedules, plus every completion order of small join definitions (so every arrival order relative to the "
-        "join's own start and completion); non-trivial = a join with >= 2 inbound tasks received >= 1 arrival; "
+        "join's own start and completion); additionally the decision-shape family (exhaustive in the thorough tier, a rotating slice in the quick tier): every acyclic edge set over 4 tasks with a join x condition succeeded/failed per edge x outcome per task (4128 definitions); non-trivial = a join with >= 2 inbound tasks received >= 1 arrival; "
         "distinct = (definition, history) digest")
 ASSUMPTIONS = ASSUME_SIM
 
@@ -35,6 +35,8 @@ def jobs(tier, seed):
                   gseed=seed + 1, max_orders=scale(tier, 80, 720), max_completions=scale(tier, 6, 7), name="orders")
     js += batches("conduct", scale(tier, 60, 1200), scale(tier, 20, 100), gen="dag", P=dict(PJ, p_intjoin=0.9, p_intjoin_less=0.9),
                   gseed=seed + 2, scheds=2, lazy=[0, 60], p_fail=0.1, name="int-barrier-smaller-than-fan-in")
+    # decision-shape family (exhaustive in the thorough tier, a rotating slice in the quick tier): every acyclic edge set over 4 tasks with a join x condition succeeded/failed per edge x outcome per task (4128 definitions)
+    js += family_slices("orders", 4128, 128, tier, seed, parts=2, gen="cshape", p_fail=0.0, max_orders=120, max_completions=6, name="decision-shapes-orders")
     return js
 
 
